@@ -323,6 +323,20 @@ mod sync_facade {
         c.policy.verif_estimate(k)
     }
 
+    /// Record `n` accesses of index hash `k` directly in the cache's TinyLFU.
+    pub fn bump_sync<K, V, KH, C, U, CB, S>(c: &Cache<K, V, KH, C, U, CB, S>, k: u64, n: usize)
+    where
+        K: Hash + Eq,
+        V: Send + Sync + 'static,
+        KH: KeyBuilder<Key = K>,
+        C: Coster<Value = V>,
+        U: UpdateValidator<Value = V>,
+        CB: CacheCallback<Value = V>,
+        S: BuildHasher + Clone + 'static + Send + Sync,
+    {
+        c.policy.verif_bump(k, n)
+    }
+
     /// A stand-alone `LFUPolicy` with its processor parked.
     pub struct SyncPolicy<S = std::collections::hash_map::RandomState> {
         pub(crate) p: crate::policy::LFUPolicy<S>,
@@ -470,6 +484,20 @@ mod async_facade {
             len: c.store.len(),
             tiny_w,
         }
+    }
+
+    /// Record `n` accesses of index hash `k` directly in the cache's TinyLFU.
+    pub fn bump_async<K, V, KH, C, U, CB, S>(c: &AsyncCache<K, V, KH, C, U, CB, S>, k: u64, n: usize)
+    where
+        K: Hash + Eq,
+        V: Send + Sync + 'static,
+        KH: KeyBuilder<Key = K>,
+        C: Coster<Value = V>,
+        U: UpdateValidator<Value = V>,
+        CB: CacheCallback<Value = V>,
+        S: BuildHasher + Clone + 'static + Send + Sync,
+    {
+        c.policy.verif_bump(k, n)
     }
 
     pub fn estimate_async<K, V, KH, C, U, CB, S>(
